@@ -12,6 +12,6 @@ DumpStep ==
                                    same |-> SameRequest(processed'.shape)])>>)
     \/ /\ calls' = calls /\ processed' = processed
        /\ PrintT(<<"CASE", ToJson([kind |-> "resolve", doc |-> probe'.doc, keys |-> 1, call |-> 0,
-                                   resolves |-> Resolves(probe'), probe |-> probe'])>>)
+                                   resolves |-> Resolves(probe'), probe |-> probe', decided |-> Decided(probe')])>>)
 View == <<calls, probe, processed>>
 =============================================================================
